@@ -77,6 +77,9 @@ class C12(SessionCheck):
                     return ('C12:listener-after-close' + key, 'a listener was invoked after close had returned')
                 if not str(io.get('later_request', '')).startswith('TransportError'):
                     return ('C12:later-request-not-refused' + key, 'a request after close gave %s' % io.get('later_request'))
+                for k2 in ('later_commit', 'later_validate'):
+                    if k2 in io and not str(io[k2]).startswith('TransportError'):
+                        return ('C12:later-request-not-refused' + key, '%s after close gave %s, not a transport error' % (k2[6:], io[k2]))
                 if sc.get('how') in ('with-exception', 'with-transport-error') and io.get('close') == 'ok' and not io.get('body_exception_propagated'):
                     return ('C12:body-exception-lost' + key, 'the with-body exception did not propagate')
                 if sc.get('inflight') and io.get('inflight', {}).get('out') == 'reply':
